@@ -696,6 +696,71 @@ var cornerDocs = []string{
 	"<a> <b> \"\\uD800\" .", "<a> <b> \"\\U00110000\" .", "<\\u0020> <b> <c> .", "<a> <b> \"a\nb\" .", "<a> <b> '''a\nb''' .",
 }
 
+// dtDocs: datatype IRIs of `"x"^^…` written in every indirect way — relative references under @base / BASE / a
+// default base, prefixed names whose namespace is absolute, relative, or cut in the middle of the local name, with
+// ordinary and keyword-like prefix labels — for datatypes that must be refused (rdf:langString, rdf:dirLangString:
+// no tag possible) and for ordinary ones (xsd:string, xsd:integer, rdf:HTML, a plain IRI).
+func (g *gen) dtDocs() {
+	type target struct{ doc, frag string } // datatype = doc + "#" + frag
+	targets := []target{
+		{"http://www.w3.org/1999/02/22-rdf-syntax-ns", "langString"}, {"http://www.w3.org/1999/02/22-rdf-syntax-ns", "dirLangString"},
+		{"http://www.w3.org/1999/02/22-rdf-syntax-ns", "HTML"}, {"http://www.w3.org/2001/XMLSchema", "string"},
+		{"http://www.w3.org/2001/XMLSchema", "integer"}, {"http://e.example/a/dt", "type1"},
+	}
+	labels := []string{"r", "", "a", "ab", "base", "BASE", "prefix", "graph", "g", "t", "f", "true", "x.y"}
+	quotes := []string{"\"x\"", "'x'", "\"\"\"x\"\"\"", ""}
+	shapes := []string{"<http://e/s> <http://e/p> %s .", "<http://e/s> <http://e/p> 1 , %s ; <http://e/q> ( %s ) , [ <http://e/r> %s ] ."}
+	trigShapes := []string{"{ <http://e/s> <http://e/p> %s }", "GRAPH <http://e/g> { <http://e/s> <http://e/p> ( %s ) . }"}
+	n := 0
+	for ti, t := range targets {
+		full := t.doc + "#" + t.frag
+		dir := t.doc[:strings.LastIndex(t.doc, "/")+1]
+		last := t.doc[strings.LastIndex(t.doc, "/")+1:]
+		type form struct{ base, hdr, dt string }
+		forms := []form{
+			{"", "", "<" + full + ">"},
+			{"", "@base <" + t.doc + "> .\n", "<#" + t.frag + ">"},
+			{"", caseMix(g.r, "BASE") + " <" + t.doc + ">\n", "<#" + t.frag + ">"},
+			{t.doc, "", "<#" + t.frag + ">"},
+			{dir + "index.html", "", "<" + last + "#" + t.frag + ">"},
+			{"", "@base <" + dir + "x/y> .\n", "<../" + last + "#" + t.frag + ">"},
+			{"", "@base <" + dir + "x/y> .\n", "<./.././" + last + "#" + t.frag + ">"},
+			{t.doc, "", "<#" + t.frag[:len(t.frag)-1] + fmt.Sprintf("\\u%04X", t.frag[len(t.frag)-1]) + ">"},
+			{dir, "@base <" + last + "> .\n", "<#" + t.frag + ">"},
+			{"http://other.example/d/f", "", "<#" + t.frag + ">"},
+		}
+		for li, l := range labels {
+			if (li+ti)%3 != 0 && l != "r" && l != "a" { // a third of the labels per target, `r` and `a` always
+				continue
+			}
+			forms = append(forms,
+				form{"", "@prefix " + l + ": <" + t.doc + "#> .\n", l + ":" + t.frag},
+				form{t.doc, "@prefix " + l + ": <#> .\n", l + ":" + t.frag},
+				form{"", "@base <" + t.doc + "> .\n" + caseMix(g.r, "PREFIX") + " " + l + ": <#>\n", l + ":" + t.frag},
+				form{dir + "index.html", "@prefix " + l + ": <" + last + "#> .\n", l + ":" + t.frag},
+				form{"", "@prefix " + l + ": <" + t.doc + "#" + t.frag[:2] + "> .\n", l + ":" + t.frag[2:]},
+				form{dir + "q", "@prefix " + l + ": <" + last + "#" + t.frag[:1] + "> .\n", l + ":" + t.frag[1:]},
+				form{"", "@prefix " + l + ": <" + full + "> .\n", l + ":"},
+			)
+		}
+		for fi, f := range forms {
+			lit := quotes[(fi+ti)%len(quotes)] + "^^" + f.dt
+			for _, sh := range shapes {
+				doc := []byte(f.hdr + strings.ReplaceAll(sh, "%s", lit))
+				g.c07("dt-ttl", f.base, doc, false)
+				n++
+			}
+			for _, sh := range trigShapes {
+				doc := []byte(f.hdr + strings.ReplaceAll(sh, "%s", lit))
+				g.dec("dt-trig", "trig", false, f.base, doc, true)
+				g.dec("dt-trig-as-turtle", "turtle", false, f.base, doc, true)
+				n++
+			}
+		}
+	}
+	g.rep.Hist["dt:docs"] += n
+}
+
 // kwLabels: prefix labels that collide with a keyword look-ahead of the top-level functions, of
 // reader_scan_PredicateObjectList ('a') or of reader_scan_Object ('true' / 'false'): proper prefixes of,
 // the keywords themselves, and extensions, in several spellings.
@@ -914,7 +979,7 @@ func (d *docGen) stringTok() {
 	default:
 		d.sb.WriteString("\"" + body + "\"")
 	}
-	switch d.r.Intn(8) {
+	switch d.r.Intn(9) {
 	case 0, 1:
 		d.sb.WriteString("@" + d.r.LangTag())
 	case 2:
@@ -922,6 +987,11 @@ func (d *docGen) stringTok() {
 		d.iriTok()
 	case 3:
 		d.sb.WriteString("^^<http://www.w3.org/2001/XMLSchema#" + vh.Pick(d.r, []string{"integer", "string", "date"}) + ">")
+	case 4:
+		// relative datatype references: under a base that is the RDF or XSD namespace document they become
+		// rdf:langString, rdf:HTML, xsd:string …
+		d.sb.WriteString("^^<" + vh.Pick(d.r, []string{"#", "22-rdf-syntax-ns#", "../02/22-rdf-syntax-ns#", "XMLSchema#"}) +
+			vh.Pick(d.r, []string{"langString", "dirLangString", "HTML", "string", "integer"}) + ">")
 	}
 }
 
@@ -1100,6 +1170,9 @@ func (d *docGen) directive() {
 // baseIRI: mostly without a fragment (the iri package keeps a base's fragment for an empty
 // reference, unlike RFC 3986; such bases are outside the model resolver's safe fragment).
 func (d *docGen) baseIRI() string {
+	if d.r.Chance(6) {
+		return vh.Pick(d.r, []string{"http://www.w3.org/1999/02/22-rdf-syntax-ns", "http://www.w3.org/1999/02/x", "http://www.w3.org/2001/XMLSchema"})
+	}
 	s := d.nsIRI()
 	if i := strings.IndexByte(s, '#'); i >= 0 && d.r.Chance(90) {
 		s = s[:i]
@@ -1196,6 +1269,9 @@ func (g *gen) generated(n, cutsPerDoc int) {
 		base := ""
 		if g.r.Chance(50) {
 			base = "http://" + vh.Pick(g.r, hosts) + "/" + vh.Pick(g.r, []string{"", "d/", "d/f", "d/e/f.ttl"})
+		}
+		if g.r.Chance(8) {
+			base = vh.Pick(g.r, []string{"http://www.w3.org/1999/02/22-rdf-syntax-ns", "http://www.w3.org/1999/02/index.html", "http://www.w3.org/2001/XMLSchema"})
 		}
 		doc, spans := genDoc(g.r.Fork(), trigDoc, base != "")
 		if trigDoc {
@@ -1491,6 +1567,8 @@ func main() {
 			g.c15chunk("trig", "", []byte(d), false)
 		}
 		g.kwDocs()
+		g.dtDocs()
+		rep.Exhaustive = append(rep.Exhaustive, "datatype IRIs of 6 datatypes (rdf:langString, rdf:dirLangString, rdf:HTML, xsd:string, xsd:integer, a plain IRI) written as absolute and relative IRIREFs under @base / BASE / default bases and as prefixed names with absolute, relative and mid-name namespaces and keyword-like labels, in 4 statement shapes, both packages")
 		rep.Exhaustive = append(rep.Exhaustive, fmt.Sprintf("%d keyword-like prefix labels (prefixes, spellings and extensions of graph/prefix/base/a/true/false) x 19 statement shapes (subject, predicate, object, list member, datatype, graph name) x shortened labels declared or not", len(kwLabels)))
 		n, cuts, w3cuts := 2500**scale, 8, 4
 		if *tier == "thorough" {
